@@ -356,11 +356,14 @@ func (r *resolver) ResolveConstValue(t *parser.ConstValue) (err error) {
 				// TODO: if enum.value is written in typedef.value?
 
 				// enum.value
-				if enum, idx := getEnum(r.ast, ss[0]); enum != nil {
+				if enum, _ := getEnum(r.ast, ss[0]); enum != nil {
 					for _, v := range enum.Values {
 						if v.Name == ss[1] {
+							// ss[0] is a name of this file (an enum, or a typedef leading to
+							// one): the selector must be looked up here, not in the include
+							// the typedef happens to point to, where no such name exists
 							ref = append(ref, &parser.ConstValueExtra{
-								IsEnum: true, Index: idx, Name: ss[1], Sel: ss[0],
+								IsEnum: true, Index: -1, Name: ss[1], Sel: ss[0],
 							})
 						}
 					}
